@@ -162,7 +162,7 @@ def sequence(ctx, pending, steps):
         n_lp = sum(1 for _, v in state["vaults"] if v["nft"])
         n_free = sum(1 for _, p in state["positions"] if not p["transferred"])
         pending.append(({"fn": "views", "ctx": "py", "state": state, "env": envj}, obs, replay, last))
-        ctx.case(f"{last}:lp{min(n_lp, 2)}:free{min(n_free, 2)}:v{min(len(state['vaults']), 3)}:{world.env.get('kind', '')}", {"after": last, "vaults": len(state["vaults"])})
+        ctx.case(f"{'flip:' if world.env.get('flip') else ''}{last}:lp{min(n_lp, 2)}:free{min(n_free, 2)}:v{min(len(state['vaults']), 3)}:{world.env.get('kind', '')}", {"after": last, "vaults": len(state["vaults"])})
         if i == steps:
             break
         if rng.random() < 0.3:
@@ -174,14 +174,76 @@ def sequence(ctx, pending, steps):
         last = f"{op['k']}:{'ok' if err is None else err}"
 
 
+def view_point(ctx, world, pending, last, tag):
+    state = world.dump_state()
+    envj = L.snapshot_env(world)
+    tw, to = world.sq.get_twap_price(world.weth), world.sq.get_twap_price(world.osqth)
+    obs = observe_views(world)
+    replay = {"spec": state, "env": dict(world.env), "after": last}
+    oracle(ctx, state, world.env, envj, tw, to, world.cur(), obs, replay, last)
+    pending.append(({"fn": "views", "ctx": "py", "state": state, "env": envj}, obs, replay, last))
+    ctx.case(f"{'flip:' if world.env.get('flip') else ''}{tag}:{last}", {"after": last})
+
+
+LP_OPS = ["reduceDebt", "reduceDebt-nobounty", "liquidate", "update", "withdrawUni", "depositUni", "uniRemove", "burnWithdraw", "openMint"]
+
+
+def lent_lp_directed(ctx, pending):
+    """a vault that holds an LP position as collateral (the position is `transferred`, i.e. lent), then — with the pool market open or
+    CLOSED, prices as they were or shocked so that the vault is unsafe — every operation that touches the position, each from the same state.
+    Whatever the call does (accepted, rejected at any point), afterwards every position is counted exactly once."""
+    rng = ctx.rng
+    env = G.gen_env(rng, rng.choice(["spot", "twap"]))
+    env["uniOpen"] = True
+    world = L.World(G.empty_state(rng, with_osqth=True), env)
+    keys = [k for k in (G.add_position(rng, world, fees=rng.random() < 0.5) for _ in range(2)) if k]
+    if not keys:
+        return
+    idx = G.index_price(world)
+    dep = G.dec(rng, 1, 6, 4)
+    st0 = world.dump_state()
+    sp = L.Spec(st0, world.env, world.sq.get_twap_price(world.weth), world.sq.get_twap_price(world.osqth), world.cur()[0])
+    lw, lq = sp.lp_tokens(keys[0])
+    eff = dep + D(float(lw)) + D(float(lq)) * idx          # what the vault will hold: ETH + the position at the index price
+    mint = eff / D("1.5") / idx * D(str(rng.choice([0.5, 0.9, 0.97, 0.999]))) if idx > 0 else D(1)
+    err, out, _ = world.apply_op({"k": "openMint", "deposit": dep, "mint": mint, "vk": None, "pos": keys[0]})
+    if err is not None:
+        ctx.case("lent-lp:setup-rejected")
+        return
+    vk = int(out[0])
+    base_spec, base_env = world.dump_state(), dict(world.env)
+    for closed in (True, False):
+        for shock in (None, 1.6, 0.6):
+            env2 = dict(base_env)
+            if shock:
+                rows = [[r[0], r[1], G.q(r[2] * D(str(shock)), 4), G.q(r[3] * D(str(shock)), 10)] for r in env2["rows"]]
+                env2["rows"] = rows
+                env2["cur"] = [env2["cur"][0], G.q(env2["cur"][1] * D(str(shock)), 4), G.q(env2["cur"][2] * D(str(shock)), 10)]
+            env2["uniOpen"] = not closed
+            for name in LP_OPS:
+                w = L.World(G.parse_spec(base_spec), env2)
+                st = w.dump_state()
+                v = dict((int(k), x) for k, x in st["vaults"])[vk]
+                op = {"reduceDebt": {"k": "reduceDebt", "vk": vk, "payBounty": True}, "reduceDebt-nobounty": {"k": "reduceDebt", "vk": vk, "payBounty": False},
+                      "liquidate": {"k": "liquidate", "vk": vk}, "update": {"k": "update"}, "withdrawUni": {"k": "withdrawUni", "vk": vk, "pos": keys[0]},
+                      "depositUni": {"k": "depositUni", "vk": vk, "pos": keys[-1]}, "uniRemove": {"k": "uniRemove", "pos": keys[0]},
+                      "burnWithdraw": {"k": "burnWithdraw", "vk": vk, "burn": v["short"] / 2, "withdraw": v["coll"] / 3},
+                      "openMint": {"k": "openMint", "deposit": D(1), "mint": D(0), "vk": None, "pos": keys[0]}}[name]
+                err, _, _ = w.apply_op(op)
+                view_point(ctx, w, pending, f"{name}:{'ok' if err is None else err}", f"lent-lp:{'closed' if closed else 'open'}:{'shock' + str(shock) if shock else 'flat'}")
+
+
 def run(ctx: Ctx):
     pending = []
     for _ in range(ctx.scale(110, 4000)):
         sequence(ctx, pending, ctx.rng.randint(3, 12))
+    for _ in range(ctx.scale(6, 120)):
+        lent_lp_directed(ctx, pending)
     ctx.impl_traces = len(pending)
     if ctx.driver_ok and pending:
-        answers = driver_json([p[0] for p in pending], exe="driver_squeeth")
-        for (req, obs, replay, last), ans in zip(pending, answers):
+        modelled = [p for p in pending if not p[2]["env"].get("flip")]      # the model knows the mainnet orientation (token0 = WETH) only
+        answers = driver_json([p[0] for p in modelled], exe="driver_squeeth")
+        for (req, obs, replay, last), ans in zip(modelled, answers):
             compare_views(ctx, ans, obs, replay, last)
 
 
